@@ -14,6 +14,7 @@ inductive Guard where
 inductive FactKind where
   | store   -- a store whose target is rooted in shared memory
   | passes  -- shared memory handed to a parameter the callee may write through
+  | read    -- a read of a root that is written under sync.Once (guard .once = ordered after an unconditional Once.Do)
   deriving Repr, DecidableEq, Inhabited
 
 structure Fact where
@@ -26,7 +27,8 @@ structure Fact where
   deriving Repr, Inhabited
 
 /-- the extracted program is read-only after initialisation: every write into shared memory is
-    guarded by package initialisation or by sync.Once -/
+    guarded by package initialisation or by sync.Once, and every read of once-initialised memory is
+    ordered after the Once.Do call (the accessor shape the interleaving model below assumes) -/
 def readOnlyAfterInit (facts : List Fact) : Bool := facts.all fun f => f.guard != .none
 
 /-! ### interleaving model
